@@ -1479,3 +1479,21 @@ Proof.
     rewrite <- Del4 in Hd3.
     apply NoDup_count_occ'; [apply Hsorted|]. apply (run_delivered_mono h3 st4 st s _ I4 H3 Hd3).
 Qed.
+
+(* ---- caselist_inv on every reachable state ---- *)
+Lemma caselist_inv h st ss :
+  run step init h = Some st -> lock st = HSend ss -> s_phase ss <> PMerge ->
+  1 <= s_k ss <= length (sendCases st) /\
+  hd_error (sendCases st) = Some RemoveSub /\ NoDup (sendCases st) /\
+  (forall s, In (Sub s) (firstn (s_k ss) (sendCases st)) -> ~ In (s_seq ss) (delivered st s)) /\
+  (forall s, In (Sub s) (skipn (s_k ss) (sendCases st)) ->
+             count_occ Nat.eq_dec (delivered st s) (s_seq ss) = 1) /\
+  s_nsent ss = total st (s_seq ss).
+Proof.
+  intros H L P. pose proof (run_inv h init st inv_init H) as [I D].
+  destruct (i_send _ I _ L) as [_ [Hk _]]. destruct (d_cur _ D _ L P) as [H1 [H2 H3]].
+  repeat split; auto; try apply Hk; auto; try apply I.
+  - apply inv1_nodup_sc; auto.
+  - intros s Hs. apply NoDup_count_occ'; [|apply H2; auto].
+    apply strongly_sorted_nodup. apply D.
+Qed.
